@@ -98,7 +98,10 @@ def finish(pid, tier, results, t0, trusted_base, explanation, extra_assumptions=
     known_hit = []
     errors = []
     for r in results:
-        r.check_floor()
+        unlisted = [f for f in r.findings if f.fid not in known_ids]
+        if not unlisted:
+            # the floor guards against a rule that silently matches nothing; a rule that reports a violation has seen the code
+            r.check_floor()
         errors += r.errors
         for f in r.findings:
             if f.fid in known_ids:
@@ -160,10 +163,11 @@ def finish(pid, tier, results, t0, trusted_base, explanation, extra_assumptions=
     }
     with open(os.path.join(evdir, "%s.json" % pid), "w") as fh:
         json.dump(ev, fh, indent=1)
+    if violations:
+        # a violation reported by one rule stands even if another rule had to decline (its ANALYSIS-ERROR line is printed above)
+        return 1
     if errors:
         return 2
-    if violations:
-        return 1
     print("[%s] OK: %d rules, %d instances, %d/%d obligations discharged, %d known findings echoed (%.2fs)"
           % (pid, len(results), instances, discharged, obligations, len(known_hit), time.time() - t0))
     return 0
